@@ -4,18 +4,31 @@
                     half |-> BOOLEAN (declared priority 0.5 instead of 1.0),
                     loop |-> "p" (parent's loop) | "a" | "b" | "N" (own new loop),
                     act  |-> action identity (equal identity = identical action),
-                    fits |-> BOOLEAN (the match fits the event)].
+                    fits |-> BOOLEAN (the match fits the event),
+                    wrap |-> BOOLEAN (the flow waits for a helper flow that matches the event)].
    Scores are exact rationals <<num, den>> = 0.9^k * priority.                                  *)
 EXTENDS Sequences, Naturals, FiniteSets, TLC
 
 Pow(b, n) == IF n = 0 THEN 1 ELSE IF n = 1 THEN b ELSE IF n = 2 THEN b * b ELSE b * b * b
-Score(c)  == << Pow(9, c.k) * (IF c.half THEN 1 ELSE 2), Pow(10, c.k) * 2 >>
+Specif(c) == << Pow(9, c.k), Pow(10, c.k) >>                         \* 0.9^k
+Prio(c)   == IF c.half THEN <<1, 2>> ELSE <<1, 1>>
+Mul(a, b) == << a[1] * b[1], a[2] * b[2] >>
+(* the chain of match scores behind the competing head: a flow that matches the event itself has
+   one entry (specificity scaled by its priority); a flow that waits for a helper flow matching the
+   event has two (the helper's specificity, then its own priority on the exact Finished match) *)
+Vec(c)    == IF c.wrap THEN << Specif(c), Prio(c) >> ELSE << Mul(Specif(c), Prio(c)) >>
+At(v, i)  == IF i <= Len(v) THEN v[i] ELSE <<1, 1>>                   \* shorter chains count as exact further on
 Less(a, b) == a[1] * b[2] < b[1] * a[2]
 Equal(a, b) == a[1] * b[2] = b[1] * a[2]
+(* u is more specific than w where the statement orders them: the chains differ in a single position *)
+Dominates(u, w) ==
+  LET n == IF Len(u) > Len(w) THEN Len(u) ELSE Len(w)
+      diff == {i \in 1..n : ~Equal(At(u, i), At(w, i))}
+  IN Cardinality(diff) = 1 /\ \A i \in diff : Less(At(w, i), At(u, i))
 (* competitors that can meet in conflict resolution: same interaction loop *)
 LoopKey(cs, i) == IF cs[i].loop = "N" THEN <<"N", i>> ELSE <<cs[i].loop, 0>>
 Group(cs, i) == {j \in 1..Len(cs) : cs[j].fits /\ LoopKey(cs, j) = LoopKey(cs, i)}
-IsMax(cs, i) == \A j \in Group(cs, i) : ~Less(Score(cs[i]), Score(cs[j]))
+IsMax(cs, i) == \A j \in Group(cs, i) : ~Dominates(Vec(cs[j]), Vec(cs[i]))
 
 (* obs: [outcome |-> sequence over competitors of "proceeded" | "failed" | "untouched",
          starts  |-> sequence of action identities started (in order of emission)]             *)
